@@ -264,6 +264,11 @@ type c16run struct {
 	m     c16model
 	trace []string
 	dead  bool // a call panicked: stop the history
+	// scratch is a caller-owned buffer of which the constructor was handed a
+	// zero-length slice; the caller keeps using it (it is overwritten after
+	// every call)
+	scratch   []byte
+	scribbles int
 }
 
 func (h *c16run) desc() string {
@@ -285,6 +290,13 @@ func (h *c16run) call(site string, f func()) bool {
 	if !h.c.Call(site, h.desc, f) {
 		h.dead = true
 		return false
+	}
+	if h.scratch != nil && h.scribbles < 6 && (strings.Contains(site, "Bytes") || strings.Contains(site, "TxLoc") || strings.HasPrefix(site, "New")) {
+		// (a bounded number of times: the buffer of a 65538-transaction block has megabytes)
+		h.scribbles++
+		for j := range h.scratch {
+			h.scratch[j] = 0xa5
+		}
 	}
 	return true
 }
@@ -651,6 +663,15 @@ func c16construct(c *vf.Ctx, r *vf.Rand, ctor string, msg *wire.MsgBlock, e *c16
 			c.Inc("reader_storage_reused_after_construction")
 		}
 	case "NewBlockFromBlockAndBytes":
+		if r.Chance(1, 4) {
+			// "no serialised bytes known": a zero-length slice - of a scratch
+			// buffer with plenty of capacity that the caller goes on using
+			h.scratch = make([]byte, len(own)+64)
+			empty := h.scratch[:0]
+			c.Inc("NewBlockFromBlockAndBytes_with_empty_slice_of_a_scratch_buffer")
+			h.call(ctor, func() { b = bchutil.NewBlockFromBlockAndBytes(msg, empty) })
+			break
+		}
 		h.call(ctor, func() { b = bchutil.NewBlockFromBlockAndBytes(msg, own) })
 	}
 	if h.dead {
